@@ -534,3 +534,29 @@ Lemma stream_checks_every_message_pf :
   /\ in_loop_before (is_call "validateRequest") (is_call "HandleRegionHeartbeat") skel_RegionHeartbeat = true
   /\ in_loop_before (is_check "v4 != v0.server.ClusterID()") (is_call "syncHistoryRegion") skel_SyncerSync = true.
 Proof. vm_compute. repeat split; reflexivity. Qed.
+
+(* ---------- one identity: PutClusterConfig cannot change the id of the cluster record ---------- *)
+Local Open Scope Z_scope.
+(* RaftCluster.PutConfig: an accepted body replaces the cluster meta (id, max_peer_count) verbatim *)
+Definition put_meta (c : Z) (meta : Z * Z) (body : option (Z * Z)) : Z * Z :=
+  match body with
+  | Some (id, mp) => if id =? c then (id, mp) else meta
+  | None => meta
+  end.
+
+Lemma put_meta_agrees c meta body :
+  put_meta c meta body = match put_config c body with Some mp => (c, mp) | None => meta end.
+Proof.
+  unfold put_meta, put_config. destruct body as [[id mp]|]; [|reflexivity].
+  destruct (Z.eqb_spec id c); [subst; reflexivity|reflexivity].
+Qed.
+
+Lemma config_identity_pf c : forall bodies meta, fst meta = c -> fst (fold_left (put_meta c) bodies meta) = c.
+Proof.
+  induction bodies as [|b r IH]; intros meta H; [exact H|]. cbn [fold_left]. apply IH.
+  rewrite put_meta_agrees. destruct (put_config c b); [reflexivity|exact H].
+Qed.
+
+Local Open Scope string_scope.
+Lemma put_config_compares : In (IfE "v1.GetId() != v0.clusterID" [Ret] []) skel_PutConfig.
+Proof. vm_compute. tauto. Qed.
